@@ -408,6 +408,30 @@ def ok_recorded(P, R):
                     R.ob('C11.MPT.2', p is None, P.relloc((f.blocks[bid].get('term') or {}).get('loc', '?')),
                          'every path of an OK reply (third byte %s) records the answering service in the client\'s ok mask' % ('NUL' if const_of(rr) == 0 else 'space'), key='ok-recorded:%s' % const_of(rr))
                     R.obligations[-1]['function'] = f.name
+    # ... and only an OK reply does: the bit is set on no path on which the reply was not recognised as "OK"
+    for f in slot_impls(P).values():
+        stores = [t for t in f.stores() if t.ev['k'] == 'store' and t.ev['lhs'].get('k') == 'mem' and t.ev['lhs']['field'] == 'ok_mask' and t.ev.get('op') == '|=']
+        if not stores or len(f.params) < 3:
+            continue
+        rp = f.params[2]
+
+        def on_edge(st, e):
+            r = rules.edge_rel(e)
+            if r and isinstance(r[0], dict) and r[0].get('k') == 'idx' and is_var(r[0].get('base'), rp) and r[1] == '==':
+                i, c = const_of(r[0].get('index')), const_of(r[2])
+                if i == 0 and c == ord('O'):
+                    return (True, st[1])
+                if i == 1 and c == ord('K'):
+                    return (st[0], True)
+            if r and isinstance(r[0], dict) and r[0].get('k') == 'callref' and r[0].get('callee') in ('strncmp', 'strcmp', 'memcmp') and r[1] == '==' and const_of(r[2]) == 0 \
+                    and any(a.get('k') == 'str' and a['v'].startswith('OK') for a in r[0].get('args', [])):
+                return (True, True)
+            return st
+        before, _, _, _ = f.forward((False, False), None, on_edge)
+        for t in stores:
+            sts = before.get(t.key, set())
+            n += 1
+            R.ob('C11.MPT.2', bool(sts) and all(a and b for a, b in sts), t, 'the service is recorded in the ok mask only on paths on which its reply was recognised as OK', key='ok-only')
     R.floor('C11.MPT.2', 2, 'OK reply edges')
 
 
